@@ -199,6 +199,10 @@ class Prog:
                     _rs.FORCE_BITS[0] = None
             if differs(gv, rv) and not ties:
                 ties = self._model_conditioning(inputs)
+            if differs(gv, rv) and not ties and abs(float(rv)) > 1e15:
+                # only exp / powers of inputs bounded by 100 reach this size; the relative rounding error of their
+                # arguments (1e-16 * 1e2..1e4) is amplified beyond the replay tolerance
+                ties = ["magnitude %.3g: conditioning of exp / pow at this size exceeds the replay tolerance" % float(rv)]
             if differs(gv, rv) and ties:
                 # the reference itself sits within 1e-9 of a discontinuity (comparison / floor) at this point without
                 # being on it: double rounding may legitimately pick the other side, the point confirms nothing
